@@ -190,22 +190,25 @@ Qed.
 
 (* ------------------------------------------------------------------------------------------------ *)
 (* The full statement (any interleaving of doc actions, calc deltas and flushes, with SC1 and SC2) is FALSE of
-   the faithful model.  Three witnesses, each replayed on the running engine by the check (known findings). *)
+   the faithful model.  Two witnesses, each replayed on the running engine by the check (known findings); a third one
+   (a removed table with rows added in the bundle) was repaired in the engine and is kept as a regression example. *)
 
-(* R1: a row added in the bundle gets a calc delta, then its table is removed.  _changes_to_actions looks the
-   presence maps up under the root table name, but they were moved to the defunct key: the front-inserted
-   restore names the new row, and the undo replay fails (docactions asserts the row exists). *)
+(* Regression (was C01_refuted_removed_table_new_row before repo commit b239974): a row added in the bundle gets a
+   calc delta, then its table is removed.  _changes_to_actions used to look the presence maps up under the ROOT
+   table name although they had moved to the defunct key, so the front-inserted restore named the new row and the
+   undo replay failed.  With the lookup under the latest (defunct) key the new row is filtered out, no restore is
+   emitted for it, and the undo list restores the start document. *)
 Definition r1_events : list (event ZOps) :=
   [ Doc ZOps (BulkAddRecord ZOps nT [3] [(nA, [7])]);
-    Calc ZOps nT nF [(3, (0, 7))];
+    Calc ZOps nT nF [(3, (0, 7)); (1, (10, 11))];
     Doc ZOps (RemoveTable ZOps nT) ].
 
-Theorem C01_refuted_removed_table_new_row :
-  exists s es s' out, wf_state ZOps s /\ run ZOps s es = Ok (s', out) /\
-                      replay_doc ZOps (rev (o_undo ZOps out)) s' = Err E_no_row.
+Example C01_regression_removed_table_new_row :
+  exists s' out s'', run ZOps ex3_state r1_events = Ok (s', out) /\ s' = [] /\
+    hd_error (o_undo ZOps out) = Some (BulkUpdateRecord ZOps nT [1] [(nF, [10])]) /\
+    replay_doc ZOps (rev (o_undo ZOps out)) s' = Ok s'' /\ view ZOps s'' = view ZOps ex3_state.
 Proof.
-  exists ex3_state, r1_events. eexists. eexists.
-  split; [apply (wf_stateb_sound ZOps); vm_compute; reflexivity|].
+  eexists. eexists. eexists. split; [vm_compute; reflexivity|]. split; [reflexivity|]. split; [reflexivity|].
   split; vm_compute; reflexivity.
 Qed.
 
